@@ -4,6 +4,7 @@ pandora/cost_volume_confidence/ -> Generated/KernelsConf.lean.
     ambiguity.py        Ambiguity.compute_ambiguity            -> Pandora.Generated.KernelsConf.computeAmbiguityPx
     ambiguity.py        Ambiguity.compute_ambiguity_and_sampled_ambiguity -> computeAmbiguitySampledPx
     risk.py             Risk.compute_risk                      -> computeRiskPx
+    risk.py             Risk.compute_risk_and_sampled_risk     -> computeRiskSampledPx
     interval_bounds.py  IntervalBounds.compute_interval_bounds -> computeIntervalBoundsPx
 
 `computeAmbiguityPx cv min_cost max_cost etas : PyVec.Res Fl` is the value of `ambiguity[row, col]` as a function of the
@@ -34,6 +35,8 @@ KERNELS = [
     (DIR + "ambiguity.py", "Ambiguity", "compute_ambiguity_and_sampled_ambiguity", "computeAmbiguitySampledPx", [Slice3("cv")] + ETA,
      {"arange": "_eta_min,_eta_max,_eta_step"}),
     (DIR + "risk.py", "Risk", "compute_risk", "computeRiskPx", [Slice3("cv"), Slice3("sampled_ambiguity")] + ETA,
+     {"arange": "_eta_min,_eta_max,_eta_step"}),
+    (DIR + "risk.py", "Risk", "compute_risk_and_sampled_risk", "computeRiskSampledPx", [Slice3("cv"), Slice3("sampled_ambiguity")] + ETA,
      {"arange": "_eta_min,_eta_max,_eta_step"}),
     (DIR + "interval_bounds.py", "IntervalBounds", "compute_interval_bounds", "computeIntervalBoundsPx",
      [Slice3("cv"), Whole1("disp_interval"), FScalar("possibility_threshold"), FScalar("type_factor")], {}),
@@ -113,6 +116,12 @@ GOLDEN = {
         {"cv": [], "min_cost": 0, "max_cost": 1, "etas": [0]},
     ],
     "computeRiskPx": [
+        {"cv": [0, 1, N], "sampled_ambiguity": [2, 3], "min_cost": 0, "max_cost": 4, "etas": [0, Fraction(1, 4)]},
+        {"cv": [N, N], "sampled_ambiguity": [2, 2], "min_cost": 0, "max_cost": 4, "etas": [0, Fraction(1, 4)]},
+        {"cv": [4, 2, 2, 3], "sampled_ambiguity": [2, 3, 4], "min_cost": 0, "max_cost": 4, "etas": [0, Fraction(1, 4), Fraction(1, 2)]},
+        {"cv": [2, 0, 4, 0], "sampled_ambiguity": [2], "min_cost": 0, "max_cost": 4, "etas": [0, Fraction(1, 2)]},
+    ],
+    "computeRiskSampledPx": [
         {"cv": [0, 1, N], "sampled_ambiguity": [2, 3], "min_cost": 0, "max_cost": 4, "etas": [0, Fraction(1, 4)]},
         {"cv": [N, N], "sampled_ambiguity": [2, 2], "min_cost": 0, "max_cost": 4, "etas": [0, Fraction(1, 4)]},
         {"cv": [4, 2, 2, 3], "sampled_ambiguity": [2, 3, 4], "min_cost": 0, "max_cost": 4, "etas": [0, Fraction(1, 4), Fraction(1, 2)]},
